@@ -256,11 +256,11 @@ theorem pin_execSubgraph (par sub : Instr) (t : SubgraphType) : PIn' L (execSubg
   apply pin_bind' (pin_modifyCtx _); intro _
   apply pin_bind (pin_tryM (ih sub)); intro res hres
   split
-  · apply pin_bind' (pin_liftTH' par fun th => meetParSubgraphEnd_in (by site) (by site) th t); intro _
+  · apply pin_bind' (pin_liftTH' par fun th => meetParSubgraphEnd_in th t); intro _
     apply pin_bind' (pin_readCtx _); intro _
     exact pin_pure _ trivial
   · apply pin_bind' pin_makeSubgraphIncomplete; intro _
-    apply pin_bind' (pin_liftTH' par fun th => meetParSubgraphEnd_in (by site) (by site) th t); intro _
+    apply pin_bind' (pin_liftTH' par fun th => meetParSubgraphEnd_in th t); intro _
     apply pin_bind' (pin_readCtx _); intro _
     exact pin_pure _ trivial
   · exact pin_bind' pin_makeSubgraphIncomplete fun _ => pin_throwE _
@@ -289,7 +289,7 @@ theorem arm_xor (l r : Instr) : PIn' L (execInner env fuel (.xor l r)) := by
 
 theorem arm_par (l r : Instr) : PIn' L (execInner env fuel (.par l r)) := by
   unfold execInner
-  apply pin_bind' (pin_liftTH' _ fun th => meetParStart_in (by site) th); intro _
+  apply pin_bind' (pin_liftTH' _ fun th => meetParStart_in th); intro _
   apply pin_bind' (pin_execSubgraph env fuel ih _ _ _); intro left
   apply pin_bind' (pin_execSubgraph env fuel ih _ _ _); intro right
   apply pin_bind' (pin_modifyCtx _); intro _
@@ -332,19 +332,19 @@ theorem arm_next (iterator : String) : PIn' L (execInner env fuel (.next iterato
   apply pin_bind' (pin_maybeTH _ _ _ fun id th => meetIterationEnd_in (by site) (by site) th id); intro _
   apply pin_bind' (pin_stateER fun c => nextAdvance_in iterator c); intro r
   split
-  · apply pin_bind' (pin_maybeTH _ _ _ fun id th => meetBackIterator_in (by site) (by site) (by site) (by site) (by site) th id); intro _
+  · apply pin_bind' (pin_maybeTH _ _ _ fun id th => meetBackIterator_in (by site) (by site) (by site) th id); intro _
     apply pin_bind' (pin_readER fun c => sc_getIterable _ _); intro fs
     split
     · exact pin_bind' (pin_modifyCtx _) fun _ => ih _
     · exact pin_nextMarkBackIteration _
   · rename_i fs
     apply pin_bind' (pin_readER fun _ => it_peekExpect _); intro item
-    apply pin_bind' (pin_maybeTH _ _ _ fun id th => meetIterationStart_in (by site) (by site) th id _); intro _
+    apply pin_bind' (pin_maybeTH _ _ _ fun id th => meetIterationStart_in th id _); intro _
     apply pin_bind (pin_tryM (ih _)); intro res hres
     apply pin_bind' (pin_modifyER fun c => nextAfter_in c); intro _
     split
     · apply pin_bind' (pin_modifyER fun c => nextBack_in _ c); intro _
-      exact pin_maybeTH _ _ _ fun id th => meetBackIterator_in (by site) (by site) (by site) (by site) (by site) th id
+      exact pin_maybeTH _ _ _ fun id th => meetBackIterator_in (by site) (by site) (by site) th id
     · exact pin_reraise hres
 
 theorem arm_new (arg : NewArg) (body : Instr) (a b : Nat) : PIn' L (execInner env fuel (.new arg body a b)) := by
@@ -385,7 +385,7 @@ theorem pin_execFoldIterations (i : Instr) (iterator : String) (body : Instr) (l
     unfold execFoldIterations
     split
     · exact pin_execFoldIterations i iterator body last foldId rest acc
-    · apply pin_bind' (pin_liftTH' i fun th => meetIterationStart_in (by site) (by site) th _ _); intro _
+    · apply pin_bind' (pin_liftTH' i fun th => meetIterationStart_in th _ _); intro _
       apply pin_bind' (pin_modifyER fun c => foldEnter_in _ _ c); intro _
       apply pin_bind (pin_tryM (ih body)); intro res hres
       apply pin_bind' (pin_modifyER fun c => foldLeave_in _ c); intro _
@@ -414,13 +414,13 @@ theorem arm_foldStream (stream : String) (streamPos : Nat) (iterator : String) (
   split
   · exact pin_makeSubgraphIncomplete
   · apply pin_bind' (pin_stateER fun c => resIn_ok _); intro foldId
-    apply pin_bind' (pin_liftTH' _ fun th => meetFoldStart_in (by site) (by site) th _); intro _
+    apply pin_bind' (pin_liftTH' _ fun th => meetFoldStart_in (by site) th _); intro _
     apply pin_bind' (pin_foldStreamGet _ _); intro s
     dsimp only
     apply pin_bind' (pin_modifyCtx _); intro _
     apply pin_bind' (pin_execFoldStreamLoop env fuel ih _ _ _ _ _ _ _ _ _ _ _); intro complete
     apply pin_bind' (pin_modifyCtx _); intro _
-    exact pin_liftTH' _ fun th => meetFoldEnd_in (by site) th _
+    exact pin_liftTH' _ fun th => meetFoldEnd_in th _
 
 omit ih in
 theorem arm_canon (peer : Value) (st : String) (pos : Nat) (n : String) : PIn' L (execInner env fuel (.canon peer st pos n)) := by
